@@ -389,6 +389,65 @@ def gen_ops(cat, rng, tier):
                     used.append(sup)
             lane = rng.choice(['c09.ret', 'c09.ret', 'c09.eval'])
             add('multi', [lane, str(k)] + outs + [str(n)] + toks, used)
+    # lane matches: Return(defaults).Matches(Pair{Args: 1, Return: R}) on func(int) T — R a bare nil, a typed nil, a value,
+    # a []interface{} of values; lane seq: Returns(g1, g2, ...) incl. bare nils, then k+1 calls
+    def group_for(outs, form, used):
+        """one PairRet for a function with results `outs`"""
+        if form == 'one-nil':
+            return ['one', 'nil']
+        if form in ('one', 'one-zero'):
+            o = outs[0]
+            sup = o
+            if cat.types[o]['kind'] == 'iface':
+                sup = rng.choice([x for x in sups if o in cat.types[x]['impl'] and not icx(x)])
+            used.append(sup)
+            return ['one'] + box(cat, vg, sup, 'zero' if form == 'one-zero' else 'rand')
+        if form == 'one-other':
+            o = outs[0]
+            sup = rng.choice([x for x in sups if not icx(x)])
+            used.append(sup)
+            return ['one'] + box(cat, vg, sup, 'zero')
+        n = len(outs) + (0 if form == 'list' else rng.choice([-1, 1]))
+        toks = ['list', str(max(n, 0))]
+        for i in range(max(n, 0)):
+            o = outs[min(i, len(outs) - 1)]
+            if rng.chance(1, 3) and cat.types[o]['kind'] in NILABLE_PROP:
+                toks += ['nil']
+            else:
+                sup = o
+                if cat.types[o]['kind'] == 'iface':
+                    sup = rng.choice([x for x in sups if o in cat.types[x]['impl'] and not icx(x)])
+                used.append(sup)
+                toks += box(cat, vg, sup, rng.choice(['zero', 'rand']))
+        return toks
+
+    icx = lambda n: 'IContext' in cat.types[n]['gostr']
+    for out in names:
+        if icx(out):
+            continue
+        forms = ['one-nil', 'one', 'one-zero', 'list', 'list-bad', 'one-other']
+        for form in forms:
+            for _ in range(1 if form in ('one-nil', 'one-zero') else reps):
+                used = [out]
+                add('matches', ['c09.matches', '1', out] + group_for([out], form, used), used)
+        for _ in range(2 * reps):
+            k = 1 + rng.below(3)
+            used = [out]
+            toks = []
+            for _ in range(k):
+                toks += group_for([out], rng.choice(['one-nil', 'one', 'one', 'one-zero', 'list']), used)
+            add('seq', ['c09.seq', '1', out, str(k)] + toks, used)
+    for mname, outs in cat.multis:
+        for _ in range(12 * reps):
+            used = list(outs)
+            add('matches', ['c09.matches', str(len(outs))] + outs + group_for(outs, rng.choice(['list', 'list', 'list', 'list-bad', 'one-nil', 'one']), used), used)
+        for _ in range(6 * reps):
+            k = 1 + rng.below(3)
+            used = list(outs)
+            toks = []
+            for _ in range(k):
+                toks += group_for(outs, rng.choice(['list', 'list', 'list', 'list-bad', 'one-nil']), used)
+            add('seq', ['c09.seq', str(len(outs))] + outs + [str(k)] + toks, used)
     # lane i2v: arity and variadic handling, directly
     slices = [n for n in names if cat.types[n]['kind'] == 'slice']
     for _ in range(300 * reps):
@@ -426,7 +485,7 @@ def gen_ops(cat, rng, tier):
 
 PROBE_TEST = 'TestVerifC09'
 LANES_ARG = ('c09.tv', 'c09.isz', 'c09.i2v')
-LANES_MOCKER = ('c09.ret', 'c09.eval', 'c09.when')
+LANES_MOCKER = ('c09.ret', 'c09.eval', 'c09.when', 'c09.matches', 'c09.seq')
 _bins = None
 
 
@@ -514,6 +573,28 @@ def parse_op(cat, op):
         return {'lane': lane, 'outs': [toks[1]], 'boxes': [b]}
     if lane == 'c09.isz':
         return {'lane': lane, 'outs': [], 'boxes': [toks[1]], 'payload': toks[2:]}
+    if lane in ('c09.matches', 'c09.seq'):
+        nt = int(toks[1])
+        outs = toks[2:2 + nt]
+        i = 2 + nt
+        ng = 1
+        if lane == 'c09.seq':
+            ng = int(toks[i])
+            i += 1
+        groups = []
+        for _ in range(ng):
+            if toks[i] == 'one':
+                b, i = read_box(i + 1)
+                groups.append([b])
+            else:
+                n = int(toks[i + 1])
+                i += 2
+                g = []
+                for _ in range(n):
+                    b, i = read_box(i)
+                    g.append(b)
+                groups.append(g)
+        return {'lane': lane, 'outs': outs, 'boxes': groups[0], 'groups': groups}
     if lane in ('c09.ret', 'c09.eval', 'c09.i2v'):
         i = 1
         variadic = None
@@ -600,6 +681,44 @@ def classify(cat, out, sup):
     return None
 
 
+def judge_call(cat, lane, outs, boxes, obs, facts):
+    """The property on one configured stub + one call: `boxes` supplied where `outs` is declared, `obs` observed."""
+    f = obs.split()
+    if len(boxes) != len(outs):
+        return None if not obs.startswith(('got', 'eval ')) or obs.startswith('eval panic') else 'a wrong number of results was accepted'
+    wants = [classify(cat, o, b) for o, b in zip(outs, boxes)]
+    delivered = obs.startswith('got') or (obs.startswith('eval ') and not obs.startswith(('eval panic', 'eval unmodelled')))
+    if 'reject' in wants:
+        return None if not delivered else f'{boxes} delivered where {outs} is declared (must be rejected, not reinterpreted)'
+    if obs.startswith('cfgok') or obs.startswith('eval unmodelled'):
+        return None if all(w is None for w in wants) else f'demanded case classified unmodelled: {wants}'
+    if all(w is not None for w in wants) and not delivered:
+        return f'{wants}: supplying {boxes} where {outs} is declared must be delivered, got {obs}'
+    if not delivered:
+        return None
+    if lane == 'c09.eval':
+        rts = facts.get('rt', '').split(',')
+        for i, w in enumerate(wants):
+            if w is not None and (i >= len(rts) or rts[i] != 'true'):
+                return f'Eval() result {i} is not the supplied value ({w})'
+        return None
+    sames = facts.get('same', '').split(',')
+    for i, w in enumerate(wants):
+        ty, fk, shape = f[1 + i].split('/')
+        if ty != outs[i]:
+            return f'result {i} has type {ty}, declared {outs[i]}'
+        if w == 'zero':
+            if shape not in ('nil', 'iface:nil'):
+                return f'result {i}: nil arrived as {shape}'
+            if cat.types[outs[i]]['kind'] == 'iface' and len(outs) == 1 and lane != 'c09.seq' and facts.get('eqnil') != 'true':
+                return f'a nil {outs[i]} result does not compare equal to nil at the caller'
+        if w == 'boxed' and shape != 'iface:' + boxes[i]:
+            return f'result {i}: dynamic type {shape}, supplied {boxes[i]}'
+        if (w is not None or sames[i] != '-') and sames[i] != 'true':
+            return f'result {i} ({w}): content altered'
+    return None
+
+
 def oracle(cat, op, obs, facts):
     """None when the property holds on this observation, else a sentence."""
     if obs is None:
@@ -659,40 +778,27 @@ def oracle(cat, op, obs, facts):
             if not (s['kind'] == 'ptr' and obs.endswith('v2i=nil')):      # nil pointers come back as untyped nil, by design of V2I
                 return 'V2I(I2V(v)) is not v'
         return None
-    if lane in ('c09.ret', 'c09.eval'):
-        if len(boxes) != len(outs):
-            return None if not obs.startswith(('got', 'eval ')) or obs.startswith('eval panic') else 'a wrong number of results was accepted'
-        wants = [classify(cat, o, b) for o, b in zip(outs, boxes)]
-        delivered = obs.startswith('got') or (obs.startswith('eval ') and not obs.startswith(('eval panic', 'eval unmodelled')))
-        if 'reject' in wants:
-            return None if not delivered else f'{boxes} delivered where {outs} is declared (must be rejected, not reinterpreted)'
-        if obs.startswith('cfgok') or obs.startswith('eval unmodelled'):
-            return None if all(w is None for w in wants) else f'demanded case classified unmodelled: {wants}'
-        if all(w is not None for w in wants) and not delivered:
-            return f'{wants}: supplying {boxes} where {outs} is declared must be delivered, got {obs}'
-        if not delivered:
-            return None
-        if lane == 'c09.eval':
-            rts = facts.get('rt', '').split(',')
-            for i, w in enumerate(wants):
-                if w is not None and (i >= len(rts) or rts[i] != 'true'):
-                    return f'Eval() result {i} is not the supplied value ({w})'
-            return None
-        sames = facts.get('same', '').split(',')
-        for i, w in enumerate(wants):
-            ty, fk, shape = f[1 + i].split('/')
-            if ty != outs[i]:
-                return f'result {i} has type {ty}, declared {outs[i]}'
-            if w == 'zero':
-                if shape not in ('nil', 'iface:nil'):
-                    return f'result {i}: nil arrived as {shape}'
-                if cat.types[outs[i]]['kind'] == 'iface' and len(outs) == 1 and facts.get('eqnil') != 'true':
-                    return f'a nil {outs[i]} result does not compare equal to nil at the caller'
-            if w == 'boxed' and shape != 'iface:' + boxes[i]:
-                return f'result {i}: dynamic type {shape}, supplied {boxes[i]}'
-            if (w is not None or sames[i] != '-') and sames[i] != 'true':
-                return f'result {i} ({w}): content altered'
+    if lane in ('c09.ret', 'c09.eval', 'c09.matches'):
+        why = judge_call(cat, lane, outs, boxes, obs, facts)
+        if why is None and lane == 'c09.matches' and obs.startswith('got') and facts.get('dflt') != 'true':
+            return 'after Matches the non-matching argument no longer gets the default results'
+        return why
+    if lane == 'c09.seq':
+        groups = p['groups']
+        if obs.startswith(('cfgpanic', 'cfgok')):
+            whys = [judge_call(cat, lane, outs, g, obs, {}) for g in groups]
+            return whys[0] if all(whys) else None
+        segs = obs.split(' | ')
+        sames = facts.get('same', '').split(';')
+        if len(segs) != len(groups) + 1:
+            return f'{len(groups) + 1} calls made, {len(segs)} observed'
+        for i, seg in enumerate(segs):
+            g = groups[min(i, len(groups) - 1)]
+            why = judge_call(cat, lane, outs, g, seg, {'same': sames[i] if i < len(sames) else ''})
+            if why:
+                return f'call {i} of a Returns sequence: {why}'
         return None
+    return None
     return None
 
 
@@ -758,12 +864,12 @@ def run(tier):
     demand = {}
     for op in ops:
         p = parse_op(cat, op)
-        if p['lane'] in ('c09.tv', 'c09.ret', 'c09.when', 'c09.eval') and len(p['outs']) == len(p['boxes']):
+        if p['lane'] in ('c09.tv', 'c09.ret', 'c09.when', 'c09.eval', 'c09.matches') and len(p['outs']) == len(p['boxes']):
             for o, b in zip(p['outs'], p['boxes']):
                 w = classify(cat, o, b) or 'unstated'
                 demand[w] = demand.get(w, 0) + 1
     nontrivial = len({(op.split(' ;; ')[0]) for i, op in enumerate(ops)
-                      if impl[i] and (impl[i].startswith(('ok', 'got', 'eval ', 'true', 'false')) and not impl[i].startswith('eval panic'))})
+                      if impl[i] and (impl[i].startswith(('ok', 'got', 'eval ', 'true', 'false', 'callpanic:assign | got')) and not impl[i].startswith('eval panic'))})
     pick = [i for i in (0, len(ops) // 5, len(ops) // 2, (4 * len(ops)) // 5, len(ops) - 1) if 0 <= i < len(ops)]
     out.coverage = {
         'obligations': proof['obligations'], 'discharged': proof['discharged'],
